@@ -12,9 +12,11 @@ import (
 	"fmt"
 	"sort"
 	"strings"
+	"sync"
 	"time"
 
 	"github.com/thushan/olla/internal/adapter/registry/profile"
+	"github.com/thushan/olla/internal/verif/h/lib/gate"
 	"github.com/thushan/olla/internal/verif/h/lib/report"
 	"github.com/thushan/olla/internal/verif/h/lib/stack"
 )
@@ -119,6 +121,8 @@ func main() {
 		}
 		runSet(set, prefixes, owner, ps)
 	}
+	e2(ps, owner)
+	res.Info["E2"] = "two overlapping requests under different provider prefixes (POST completion or GET model listing each), deployments {type of the second} and {both types}; gates: every record logged through a request-scoped logger and backend arrival; one thread released at a time; all orders of the blocks with <=1 preemption (<=2 thorough)"
 	res.Info["grid"] = map[string]any{"prefixes": prefixes, "endpoint_types": types, "type_sets": len(sets), "max_set_size": maxSet,
 		"paths": []string{"/v1/chat/completions", "/v1/completions", "/api/chat (native-style)", "/unknown/path"}, "health": "all healthy; each endpoint unhealthy in turn; all unhealthy"}
 	res.Info["rule"] = "one evaluation = one request for one (type set, health flags, prefix, path); non-trivial = the deployment contains at least one endpoint NOT compatible with the prefix (the filter had something to exclude); distinct = distinct (set, health, prefix, path, outcome) tuples"
@@ -255,4 +259,234 @@ func ownClass(own string) string {
 		return "openai"
 	}
 	return "provider"
+}
+
+// ---------------------------------------------------------------- E2: two overlapping provider-scoped requests
+//
+// The provider constraint is per request. Two requests under different prefixes are run as two threads of
+// the gate engine: a thread runs only while released and parks at its next gate (any record logged through
+// its request-scoped logger, arrival at a backend); all orders of the resulting blocks are enumerated up to
+// a preemption bound. The oracle per request is E1's.
+
+type e2world struct {
+	mu  sync.Mutex
+	ctl *gate.Controller
+}
+
+func (w *e2world) controller() *gate.Controller {
+	w.mu.Lock()
+	defer w.mu.Unlock()
+	return w.ctl
+}
+
+func e2(ps []prof, owner map[string]string) {
+	isType := map[string]bool{}
+	for _, p := range ps {
+		isType[p.name] = true
+	}
+	// one prefix per owner that is also an endpoint type
+	first := map[string]string{}
+	var pxs []string
+	for px := range owner {
+		pxs = append(pxs, px)
+	}
+	sort.Strings(pxs)
+	for _, px := range pxs {
+		if _, ok := first[owner[px]]; !ok && isType[owner[px]] {
+			first[owner[px]] = px
+		}
+	}
+	var owners []string
+	for o := range first {
+		owners = append(owners, o)
+	}
+	sort.Strings(owners)
+	bound := 1
+	if report.Thorough() {
+		bound = 2
+	}
+	idx := 0
+	for _, oa := range owners {
+		for _, ob := range owners {
+			if oa == ob {
+				continue
+			}
+			for _, dep := range [][]string{{ob}, {oa, ob}} {
+				idx++
+				if !report.Mine(idx) {
+					continue
+				}
+				if report.Expired() {
+					res.NotExhaustive("E2: time budget")
+					return
+				}
+				e2deployment(dep, [2]string{first[oa], first[ob]}, [2]string{oa, ob}, ps, bound)
+			}
+		}
+	}
+}
+
+func e2deployment(set []string, px, own [2]string, ps []prof, bound int) {
+	w := &e2world{}
+	var bes []*stack.Backend
+	var eps []stack.EP
+	for i, t := range set {
+		b := stack.NewBackend(fmt.Sprintf("ep%d-%s", i, t), t, true)
+		t := t
+		b.ModelsBody = func() []byte { return stack.ModelsFor(t, "model-of-"+t) }
+		name := b.Name
+		b.SetPlan(func(req *stack.Request) stack.Behaviour {
+			if c := w.controller(); c != nil {
+				var th int
+				if _, err := fmt.Sscanf(req.Header("X-Verif-Thread"), "%d", &th); err == nil {
+					c.Park(th, "backend:"+name)
+				}
+			}
+			return stack.OK(okCompletion)
+		})
+		bes = append(bes, b)
+		eps = append(eps, stack.EP{B: b, Type: t, Priority: 100})
+	}
+	defer func() {
+		for _, b := range bes {
+			b.Close()
+		}
+	}()
+	o, err := stack.Boot(stack.Opts{Engine: "sherpa", Balancer: "round-robin", Endpoints: eps, ModelDiscovery: true,
+		LogHook: func(_ string, msg string) {
+			if c := w.controller(); c != nil {
+				c.Park(-1, "log:"+msg)
+			}
+		}})
+	if err != nil {
+		res.Break("boot %v: %v", set, err)
+		return
+	}
+	defer o.Stop()
+	for _, b := range bes {
+		o.SetStatus(b.Name, "healthy")
+	}
+	for _, kinds := range [][2]string{{"post", "post"}, {"post", "models"}, {"models", "post"}, {"models", "models"}} {
+		cell := fmt.Sprintf("types=%v T0: %s /olla/%s (owner %s) || T1: %s /olla/%s (owner %s)", set, kinds[0], px[0], own[0], kinds[1], px[1], own[1])
+		outcomes := map[string]bool{}
+		maxGates := 0
+		stop := false
+		execs := gate.Explore(bound, func(prefix []int) ([]gate.Decision, bool) {
+			if report.Expired() {
+				stop = true
+				return nil, false
+			}
+			for _, b := range bes {
+				b.Reset()
+			}
+			var results [2]*stack.Resp
+			c := gate.New(2, prefix)
+			c.Start = func(t int, done func()) {
+				go func() {
+					q := &stack.Req{Method: "POST", Target: "/olla/" + px[t] + "/v1/chat/completions", Body: []byte(`{"messages":[{"role":"user","content":"hi"}]}`),
+						Headers: [][2]string{{"Content-Type", "application/json"}, {"X-Verif-Thread", fmt.Sprint(t)}}, Timeout: 20 * time.Second}
+					if kinds[t] == "models" {
+						q = &stack.Req{Method: "GET", Target: "/olla/" + px[t] + "/v1/models", Headers: [][2]string{{"X-Verif-Client", "1"}, {"X-Verif-Thread", fmt.Sprint(t)}}, Timeout: 20 * time.Second}
+					}
+					results[t] = stack.Do(o.Addr, q)
+					done()
+				}()
+			}
+			w.mu.Lock()
+			w.ctl = c
+			w.mu.Unlock()
+			c.Run()
+			w.mu.Lock()
+			w.ctl = nil
+			w.mu.Unlock()
+			if c.Lost != "" || c.Diverged != "" {
+				res.Break("E2 %s: lost control: %s %s", cell, c.Lost, c.Diverged)
+				stop = true
+				return nil, false
+			}
+			res.Add("evaluations", 1)
+			res.Add("gate_schedules", 1)
+			if len(c.Trace) > maxGates {
+				maxGates = len(c.Trace)
+			}
+			rp := map[string]any{"engine": "gate", "cell": cell, "schedule": c.Choices(), "blocks": c.Trace}
+			wit := func(t int) map[string]any {
+				return map[string]any{"part": "E2", "prefix_owner": ownClass(own[t]), "kind": kinds[t]}
+			}
+			fp := ""
+			for t := 0; t < 2; t++ {
+				r := results[t]
+				if r == nil {
+					res.Break("E2 %s: thread %d has no result", cell, t)
+					stop = true
+					return nil, false
+				}
+				fp += fmt.Sprintf("T%d:%d", t, r.Status)
+				if kinds[t] == "models" {
+					if r.Status == 200 {
+						var doc struct {
+							Data []struct {
+								ID string `json:"id"`
+							} `json:"data"`
+						}
+						if json.Unmarshal(r.Body, &doc) == nil {
+							for _, m := range doc.Data {
+								fp += "," + m.ID
+								for _, ty := range set {
+									if strings.Contains(m.ID, "model-of-"+ty) && !compatible(own[t], ty, ps) && !servedByCompat(m.ID, set, own[t], ps) {
+										res.Violate("listing-shows-foreign-model", wit(t), fmt.Sprintf("%s\nblocks %v\nT%d's listing shows %q which only an endpoint of type %s provides", cell, c.Trace, t, m.ID, ty), rp)
+									}
+								}
+							}
+						}
+					}
+					continue
+				}
+				anyCompat := false
+				for _, ty := range set {
+					if compatible(own[t], ty, ps) {
+						anyCompat = true
+					}
+				}
+				recv := false
+				for i, b := range bes {
+					for _, rq := range b.Requests() {
+						if rq.Header("X-Verif-Thread") != fmt.Sprint(t) {
+							continue
+						}
+						recv = true
+						fp += "@" + set[i]
+						if !compatible(own[t], set[i], ps) {
+							res.Violate("served-by-foreign-provider", wit(t), fmt.Sprintf("%s\nblocks %v\nT%d's request reached endpoint %s of type %s; client: %s", cell, c.Trace, t, b.Name, set[i], r), rp)
+						}
+					}
+				}
+				if !anyCompat {
+					if !recv && r.Status >= 200 && r.Status < 300 {
+						res.Violate("success-without-compatible-endpoint", wit(t), fmt.Sprintf("%s\nblocks %v\nT%d: %s", cell, c.Trace, t, r), rp)
+					} else if !recv && r.Status < 400 {
+						res.Violate("no-error-without-compatible-endpoint", wit(t), fmt.Sprintf("%s\nblocks %v\nT%d: %s", cell, c.Trace, t, r), rp)
+					}
+				} else if !recv {
+					res.Violate("not-served-although-compatible-endpoint-healthy", wit(t), fmt.Sprintf("%s\nblocks %v\nT%d: %s", cell, c.Trace, t, r), rp)
+				}
+			}
+			outcomes[fp] = true
+			return c.Decs, true
+		})
+		_ = execs
+		for fp := range outcomes {
+			res.SetAdd("distinct_nontrivial", "E2|"+cell+"|"+fp)
+		}
+		if report.Shard == 0 || maxGates > 0 {
+			res.SetAdd("e2_gates_per_run", fmt.Sprint(maxGates))
+		}
+		if stop {
+			if report.Expired() {
+				res.NotExhaustive("E2: time budget")
+			}
+			return
+		}
+	}
+	res.Sample(map[string]any{"part": "E2", "types": set, "prefixes": px, "preemption_bound": bound})
 }
